@@ -17,7 +17,9 @@ import (
 	"strings"
 
 	"github.com/DemoHn/Zn/pkg/exec"
+	r "github.com/DemoHn/Zn/pkg/runtime"
 	"github.com/DemoHn/Zn/pkg/server"
+	"github.com/DemoHn/Zn/pkg/value"
 	"github.com/DemoHn/Zn/znverif/hlib"
 	"github.com/DemoHn/Zn/znverif/zsim"
 )
@@ -319,8 +321,16 @@ func (g *zgen) moduleProgram(sc *c11Scenario) {
 			imports = append(imports, fmt.Sprintf("导入“%s”", name))
 		}
 	}
-	if g.t.Draw(3) == 0 {
+	switch g.t.Draw(6) {
+	case 1:
 		imports = append(imports, "导入《@JSON》")
+	case 2: // the same library imported twice: every export collides
+		lib := pick(g.t, []string{"@JSON", "@文件", "@共甲"})
+		imports = append(imports, "导入《"+lib+"》", "导入《"+lib+"》")
+	case 3: // two libraries that share several export names
+		imports = append(imports, "导入《@共甲》", "导入《@共乙》")
+	case 4:
+		imports = append(imports, "导入《@共乙》", "导入《@文件》", "导入《@共甲》")
 	}
 	var lines []string
 	lines = append(lines, imports...)
@@ -391,7 +401,7 @@ func c11Exec(w *zsim.World, sc *c11Scenario) string {
 		for n, src := range sc.Modules {
 			d.Put("/proj/"+n+".zn", []byte(src))
 		}
-		return runFile(w, newInterp(), "/proj/main.zn", nil).String()
+		return runFile(w, newInterp(sharedLibs()...), "/proj/main.zn", nil).String()
 	case "http":
 		d := zsim.NewDisk(w)
 		d.Put("/srv/entry.zn", []byte(sc.Main))
@@ -641,4 +651,20 @@ func c11MinimiseScript(t *zsim.Tape, sc *c11Scenario, site string) {
 			}
 		}
 	}
+}
+
+// sharedLibs: two registered libraries with four export names in common (and two of their own),
+// as an embedding application might provide.
+func sharedLibs() []*r.Library {
+	mk := func(name string, own string) *r.Library {
+		lib := r.NewLibrary(name)
+		for _, fn := range []string{"合并", "拆分", "计数", "查找", own} {
+			fn := fn
+			lib.RegisterFunction(fn, value.NewFunction(func(recv r.Element, ps []r.Element) (r.Element, error) {
+				return value.NewString(name + "·" + fn), nil
+			}))
+		}
+		return lib
+	}
+	return []*r.Library{mk("@共甲", "甲独有"), mk("@共乙", "乙独有")}
 }
